@@ -17,13 +17,14 @@ Lemma convert_shape_ok : convert_shape =
    "o.types.Sort()"].
 Proof. reflexivity. Qed.
 
-(* typeAliasForSchema, and the array decisions of buildField *)
+(* typeAliasForSchema (since C11-8 only an INLINE array is wrapped), and the array decisions of buildField (the
+   whole of buildField: build_field_shape_ok in NestedTheorems.v) *)
 Lemma array_rule_ok : array_rule =
   ["name := o.typeNameFromSchemaRef(ref)";
    "t, found := o.types.Find(name)";
    "if !found { t = nameOnlyType(name) }";
    "if name == OpenAPI_OBJECT { t = nameOnlyType(strings.Join(o.nameStack, ""_"")) }";
-   "if _, ok := t.(*Array); !ok && ref.Value.Type.Is(openapi3.TypeArray) { return &Array{Items: t} }";
+   "if _, ok := t.(*Array); !ok && ref.Ref == """" && ref.Value.Type.Is(openapi3.TypeArray) { return &Array{Items: t} }";
    "return t";
    "isArray := prop.Value.Type.Is(openapi3.TypeArray)";
    "if isArray && prop.Value.Items == nil { prop.Value.Items = openapi3.NewSchemaRef("""", openapi3.NewObjectSchema()) }";
